@@ -108,6 +108,40 @@ def rule_carry(ctx, prog, chk, A):
                         nm, fn.vars[s]["t"], list(intervals.trange(t)), val.iv[0], val.iv[1]), line=el.line)
                 else:
                     chk.ok("DRBG-CARRY", fn, nm, "sum in [%d, %d] fits %s" % (val.iv[0], val.iv[1], fn.vars[s]["t"]), line=el.line)
+        # hand-rolled ripples: bytes of a multi-byte value incremented through constant indices
+        touched = {}
+        for el in fn.all_elements():
+            for sub in ir.walk(fn, el.e):
+                tgt = None
+                if sub[0] == "u" and ("++" in sub[1] or "--" in sub[1]):
+                    tgt = sub[2]
+                elif sub[0] == "o=" and sub[1] in ("+=", "-="):
+                    tgt = sub[2]
+                if tgt is None:
+                    continue
+                l = ir.strip_casts(fn.resolve(tgt))
+                if not (isinstance(l, list) and l[0] == "x"):
+                    continue
+                idx = ir.peel(fn, l[2])
+                bv = ir.base_var(fn, l[1])
+                if bv is None or not (isinstance(idx, list) and idx[0] == "i"):
+                    continue
+                et = intervals.elem_type(fn.vars[bv].get("c")) if not is_rand_state(fn, l[1]) else (8, False)
+                if et != (8, False):
+                    continue
+                touched.setdefault(bv, (set(), el.line))[0].add(idx[1])
+        for bv, (idxs, line) in touched.items():
+            if len(idxs) < 2:
+                continue        # a single byte stepped on its own is a one-byte counter (hash_df), not a ripple
+            n += 1
+            dims = fn.vars[bv].get("dims")
+            width = dims[0] if dims else None
+            nm = fn.vars[bv]["n"]
+            if width is not None and len(idxs) >= width:
+                chk.ok("DRBG-CARRY", fn, nm, "unrolled ripple over all %d bytes" % width, line=line)
+            else:
+                chk.fail("DRBG-CARRY", fn, nm, "`%s` is incremented byte by byte through %d fixed position(s) only: a carry out of the last of them is lost, so the value is not the sum modulo 2^(8*%s)" % (
+                    nm, len(idxs), width if width is not None else "len"), line=line)
     return n
 
 
